@@ -92,15 +92,21 @@ def run(ck, rng, tier):
         elif any(o["x_train"][a] != [float(t * 10), float(t * 10 + 1)] for a, t in enumerate(tr)):
             ck.fail("kfold_group_train_test_split", "rows_mismatch", "x rows do not follow the y rows", {"gid": gid, "group": k})
     # ---------------- out-of-sample predictions through the public API
-    N = 10 if not thorough else 80
+    # every run covers each scheme with the multi-response / multi-component PLS layout (where the
+    # residual columns are LV-major) and with MLR and LDA; the rest is random
+    FORCED = [(0, "loo", 2, 2), (0, "kfold", 3, 2), (0, "boot", 2, 2), (4, "kfold", 2, 0), (4, "boot", 3, 0), (5, "boot", 1, 0)]
+    N = (10 if not thorough else 80) + len(FORCED)
     for c in range(N):
         algo = rng.choice((0, 4, 4, 5))
         n = rng.randint(6, 30 if thorough else 14)
         m = rng.randint(1, 6 if thorough else 3)
         ny = 1 if algo == 5 else rng.randint(1, 3)
         nlv = rng.randint(1, m) if algo == 0 else 0
-        X, Y = gen_data(rng, n, m, ny, algo)
         scheme = rng.choice(("loo", "kfold", "boot")) if algo != 5 else rng.choice(("loo", "boot"))
+        if c < len(FORCED):
+            algo, scheme, ny, nlv = FORCED[c]
+            m = max(m, nlv, 2)
+        X, Y = gen_data(rng, n, m, ny, algo)
         nth = rng.choice((1, 2, 3, 4, 8))
         ck.count("%s %s" % (scheme, ALGOS[algo]))
         head = "%d %d %s %s" % (algo, nlv, vf.fmt_mat(X.tolist(), m), vf.fmt_mat(Y.tolist(), ny))
